@@ -349,6 +349,13 @@ def case_product_zip(ctx, inp):
             if [tuple(xy) for p in gz for xy in p] != list(zip(fa, fb)):
                 ctx.fail("zip of equally partitioned bags differs from zip(seq1, seq2)", observed=gz)
             ctx.branch("zip-aligned")
+    # join of A with a small sequence
+    km = inp.get("km", 3)
+    other = fb[:4]
+    gj = [[list(yx) for yx in p] for p in parts_of(A.join(other, lambda x: x % km))]
+    ctx.eq("Bag.join partitions", ctx.lean(Sym("join"), km, other, a), gj)
+    if sorted(tuple(yx) for p in gj for yx in p) != sorted((y, x) for x in fa for y in other if x % km == y % km):
+        ctx.fail("join differs from the nested-loop join as a multiset", observed=gj)
     gc = parts_of(db.concat([A, B, A]))
     if gc != [list(p) for p in a + b2 + a]:
         ctx.fail("concat is not the partitions in order", observed=gc)
@@ -671,7 +678,7 @@ def generate(ctx):
             b = [[rng.randint(0, 5) for _ in p] for p in a]
         else:
             b = gen_parts(rng, maxparts=4, maxlen=3)
-        yield "product_zip", {"a": a, "b": b}
+        yield "product_zip", {"a": a, "b": b, "km": rng.randint(1, 4)}
 
 
 LEVEL_TEXT = (
